@@ -17,7 +17,7 @@ META = {
     "engine": "storage",
     "technique": "TLA+ specs FactStore (checkpoint/revert on the implementation-shaped perspective, action property RevertExact) and SessionOverlay (failed operations revert the session) model-checked with TLC; one TLC behaviour per transition plus seeded simulation replayed into LinearPerspective::checkpoint/revert and Session::action/receive (spec->impl conformance)",
     "text": "TLC explores every interleaving of insert, delete, add_command, checkpoint and revert (one live checkpoint in the quick tier, nested checkpoints in the thorough tier and in simulation) on the init perspective, on a perspective over a committed index and on a perspective reconstructed in the middle of a segment, followed by writing the perspective and reopening the written segment at each command, and checks on every transition that a revert restores the facts, the command count and the pending updates of the checkpoint. Each behaviour is replayed into the real LinearPerspective: the whole-universe query/query_prefix results and head address seen after revert must equal those the real perspective showed when the checkpoint was taken, and every later view (including mid-segment reconstruction of the written segment, where discarded writes would resurface) must equal the flat map. For sessions, every failing Session::action / Session::receive over two sessions must leave all session views (read through a probing policy) exactly as they were before the call.",
-    "note": "Bounds: 1 fact key, <=2 commands x <=2 pending updates per perspective, 1 checkpoint (thorough: 2) in the exhaustive part; simulation: 26 fact keys, 3 nested checkpoints, 120 steps. Checkpoints are used in stack discipline (reverting invalidates later checkpoints). Sessions: 2 keys, <=2 commits, 2 sessions, programs of <=1 update + optional failing check.",
+    "note": "Bounds: 1 fact key, <=2 commands x <=2 pending updates per perspective, 1 checkpoint (thorough: 2) in the exhaustive part; simulation: 26 fact keys, 3 nested checkpoints, 120 steps. Checkpoints are used in stack discipline (reverting invalidates later checkpoints). Sessions: 2 keys, <=2 commits, 2 sessions, programs of <=1 update + optional failing check (quick: 1 commit, 1 published command, failing transitions only).",
 }
 
 ACTIONS = ["InsertAny", "DeleteAny", "AddCommand", "Checkpoint", "RevertAny", "Write", "Create", "OpenAny"]
@@ -48,7 +48,7 @@ def run(ctx):
         raise verif.ToolError("simulation behaviours contain only %d reverts" % srev)
     facts_check.replay(ctx, vh, sim, "revert-sim", prop="C13")
     # sessions: failing operations (checkpoint/revert inside Session::action / receive)
-    r2 = ctx.tlc("MC_SessionOverlay", "MC_SessionOverlay.cfg", timeout=3000)
+    r2 = ctx.tlc("MC_SessionOverlay", "MC_SessionOverlay.cfg" if ctx.thorough else "MC_SessionOverlay_fail.cfg", timeout=3000)
     ctx.require_actions(storage_util.parse_action_coverage(r2), ["CommitAny", "NewSession", "ActionAny", "ReceiveAny"])
     sb = [b for b in r2.replays if b["e"]["r"] == "err" or ctx.thorough]
     nfail = sum(1 for b in sb if b["e"]["r"] == "err")
